@@ -29,6 +29,8 @@ func main() {
 		runE2E(*n, *out, *replay, *what)
 	case "startfail":
 		runStartFail(*n, *out, *replay)
+	case "nodestop":
+		runNodeStop(*n, *out, *replay)
 	case "tree":
 		runTree(*n, *out, *replay)
 	default:
